@@ -16,6 +16,7 @@ for d in /verif/seeded/*/; do
   python3 /verif/checklib/gen_interp_ctl.py $T/src $T/out/InterpCtl.lean >/dev/null 2>&1 || res="$res ctl:FAIL"
   python3 /verif/checklib/gen_stack.py $T/src $T/out/StackEntries.lean >/dev/null 2>&1 || res="$res stack:FAIL"
   python3 /verif/checklib/gen_jit.py $T/src $T/out/JitArms.lean >/dev/null 2>&1 || res="$res jit:FAIL"
+  python3 /verif/checklib/gen_clif.py $T/src $T/out/ClifFns.lean >/dev/null 2>&1 || res="$res clif:FAIL"
   for f in $T/out/*.lean; do b=$(basename $f); [ -f $G/$b ] && ! cmp -s $f $G/$b && res="$res $b"; done
   echo "$n |$res"
   rm -rf $T
